@@ -45,9 +45,20 @@
      C14_sighelp_site_tokens, C14_sighelp_site_commas   what the tokens at a call site are: the slice of the
                               statement, its `(`, `)`, `;`; its commas are the separators of its own arguments
      C14_sighelp_valid_text   the same for every rendering of such a program
-   NOT proved: [C14_sighelp_full_statement] and [C14_hover_full_statement] in their formulation over "documents
-   without diagnostics" (they need, on top of C14_hover_valid / C14_sighelp_valid_full, the completeness of the
-   front end: no diagnostic => the text is a layout of a well-typed abstract program).
+   PROVED for every DOCUMENT WITHOUT DIAGNOSTICS (end of this file; Proofs/CompleteFeatures.v):
+     C14_hover_full           [C14_hover_full_statement] itself, and
+     C14_sighelp_full         [C14_sighelp_full_statement] itself: their hypothesis [no_diagnostics d] (Proofs/HoverProofs.v)
+                              says that errors() is empty AND that no token carries a lexical error (lexical errors -
+                              integer literal above u32, `0x` without digits, unterminated character literal - are
+                              attached to tokens and never published, so the second half is not implied by the
+                              first).  On top of C14_hover_valid / C14_sighelp_valid_full this is the COMPLETENESS of
+                              the front end (Proofs/CompleteFront.v [front_end_complete], [clean_doc_valid]: no
+                              diagnostic => the text is a layout of a well-typed abstract program and the document
+                              holds the mandated tree and an accepted table)
+     C14_hover_clean          the same in the wording [clean_doc t d] of Spec/Nav.v (the one of C12_full / C13_full)
+     C14_sighelp_clean, C14_sighelp_clean_none   C14_sighelp_valid / _valid_arg / _valid_none for every document without
+                              diagnostics; p is ANY derivation of the document's token vector in the grammar (it only
+                              serves to name the call sites; C14_clean_doc_derivable: one exists)
    NOT true (finding, kept as the known quirk of signature_help.rs): "outside the parentheses of every call
    => no answer" - the answer is also given on the callee name, in the comments in front of the statement and
    between `)` and `;` (C14_sighelp_valid_stmt; C14_sighelp_quirk_ex).
@@ -252,8 +263,8 @@ Definition C14_sighelp_full_statement : Prop := sighelp_full_statement.
    is BOUND to ([binding]: SPL scoping on the tables of the document) + its documentation block, over
    exactly the token's range.  This is [C14_hover_full_statement] with "document without diagnostics"
    replaced by "layout of a well-typed abstract program" (the formulation of C03_no_false_positive and
-   C17_valid); what the former would need in addition is the completeness of the front end (no diagnostic
-   => the text is a layout of a well-typed abstract program), which is not proved. *)
+   C17_valid); the former follows from it by the completeness of the front end (no diagnostic
+   => the text is a layout of a well-typed abstract program): C14_hover_full at the end of this file. *)
 Theorem C14_hover_valid : forall (p : aprog) (G : gtable) (t : text) (toks : list token) (d : doc),
   prog_ok p = true -> well_typed (expected p) G ->
   lex t = Some toks -> map tk toks = flatten p ++ [Eof] ->
@@ -655,3 +666,93 @@ Example C14_sighelp_quirk_ex :
   | _ => False
   end.
 Proof. vm_compute. split; reflexivity. Qed.
+
+(* ---- the full property, PROVED for every document without diagnostics ----
+   By the completeness of the front end (Proofs/CompleteFront.v: a document that AnalyzedSource::new builds,
+   whose errors() is empty and none of whose tokens carries a lexical error, is the document of a layout of a
+   well-typed abstract program, with the mandated tree and an accepted table) C14_hover_valid and
+   C14_sighelp_valid_full apply to every such document (Proofs/CompleteFeatures.v). *)
+From Spl Require Import Spec.Nav Proofs.CompleteFront Proofs.CompleteFeatures.
+
+Theorem C14_hover_full : C14_hover_full_statement.
+Proof. exact hover_full_statement_holds. Qed.
+Print Assumptions C14_hover_full.
+
+Theorem C14_sighelp_full : C14_sighelp_full_statement.
+Proof. exact sighelp_full_statement_holds. Qed.
+Print Assumptions C14_sighelp_full.
+
+(* the hypothesis of the two statements, spelled out, is the [clean_doc] of Spec/Nav.v (C12_full, C13_full) *)
+Theorem C14_no_diagnostics_clean : forall (t : text) (d : doc),
+  clean_doc t d <-> new_doc_res t = ODone d /\ no_diagnostics d.
+Proof.
+  intros t d. split; [exact (clean_no_diagnostics t d)|]. intros [Hd Hn]. exact (no_diagnostics_clean t d Hd Hn).
+Qed.
+Print Assumptions C14_no_diagnostics_clean.
+
+Theorem C14_hover_clean : forall (t : text) (d : doc), clean_doc t d ->
+  forall owner k x sc, In (owner, (k, x, sc)) (program_occs (d_ast d)) ->
+  forall tok line col, nth_error (d_toks d) k = Some tok ->
+    ts tok <= get_insertion_index line col t -> get_insertion_index line col t < te tok ->
+    exists e, HoverProofs.binding d owner sc x = Some e /\
+      hover d line col = ROk (Some (hover_text e, (as_position (ts tok) t, as_position (te tok) t))).
+Proof. exact hover_clean. Qed.
+Print Assumptions C14_hover_clean.
+
+(* the token vector of a document without diagnostics is derivable in the grammar, the tree is the mandated
+   one and the table is accepted by the static semantics ... *)
+Theorem C14_clean_doc_derivable : forall (t : text) (d : doc), clean_doc t d ->
+  exists p G, prog_ok p = true /\ well_typed (expected p) G /\ lex t = Some (d_toks d) /\
+              map tk (d_toks d) = flatten p ++ [Eof] /\ d_ast d = expected p /\ d_table d = G.
+Proof. exact clean_doc_valid. Qed.
+Print Assumptions C14_clean_doc_derivable.
+
+(* ... and this holds for EVERY derivation p of the token vector (the grammar with [prog_ok] is unambiguous
+   up to the mandated tree) *)
+Theorem C14_clean_doc_layout : forall (t : text) (d : doc) (p : aprog),
+  clean_doc t d -> prog_ok p = true -> map tk (d_toks d) = flatten p ++ [Eof] ->
+  well_typed (expected p) (d_table d) /\ lex t = Some (d_toks d) /\ new_doc_res t = ODone d /\ d_ast d = expected p.
+Proof. exact clean_doc_layout. Qed.
+Print Assumptions C14_clean_doc_layout.
+
+(* signature help at the call sites the grammar locates (C14_sighelp_valid + C14_sighelp_valid_arg) *)
+Theorem C14_sighelp_clean : forall (t : text) (d : doc) (p : aprog),
+  clean_doc t d -> prog_ok p = true -> map tk (d_toks d) = flatten p ++ [Eof] ->
+  forall owner k c, In (owner, (k, c)) (program_sites p) ->
+  exists pe, lookup (d_table d) (k_f c) = Some (GProcE pe) /\ length (pe_params pe) = nargs (k_a c) /\
+  (forall lp rp line col,
+    nth_error (d_toks d) (k + lp_pos c) = Some lp -> nth_error (d_toks d) (k + rp_pos c) = Some rp ->
+    te lp <= get_insertion_index line col t -> get_insertion_index line col t <= ts rp ->
+    signature_help d line col
+    = ROk (Some (sighelp_answer pe (firstn (length (fl_call c)) (skipn k (d_toks d))) (get_insertion_index line col t)))) /\
+  (forall j qa qb a b line col,
+    nth_error (call_seps c) j = Some qa -> nth_error (call_seps c) (S j) = Some qb ->
+    nth_error (d_toks d) (k + qa) = Some a -> nth_error (d_toks d) (k + qb) = Some b ->
+    te a <= get_insertion_index line col t -> get_insertion_index line col t <= ts b ->
+    signature_help d line col
+    = ROk (Some {| sh_label := show_pentry pe; sh_doc := sig_documentation (pe_doc pe);
+                   sh_params := map show_ventry (pe_params pe);
+                   sh_active := match pe_params pe with [] => None | _ :: _ => Some (N.of_nat j) end |})).
+Proof. exact sighelp_clean. Qed.
+Print Assumptions C14_sighelp_clean.
+
+Theorem C14_sighelp_clean_none : forall (t : text) (d : doc) (p : aprog),
+  clean_doc t d -> prog_ok p = true -> map tk (d_toks d) = flatten p ++ [Eof] ->
+  forall line col,
+  (forall owner k c first last, In (owner, (k, c)) (program_sites p) ->
+     nth_error (d_toks d) k = Some first -> nth_error (d_toks d) (k + length (fl_call c) - 1) = Some last ->
+     get_insertion_index line col t < ts first \/ te last <= get_insertion_index line col t) ->
+  signature_help d line col = ROk None.
+Proof. exact sighelp_clean_none. Qed.
+Print Assumptions C14_sighelp_clean_none.
+
+(* non-vacuity: the two example texts of this file are documents without diagnostics (decided by evaluation),
+   so C14_hover_full / C14_sighelp_full apply to them without naming an abstract program; a text with a
+   lexical error only - `proc main() { var x: int; x := 99999999999; }` - has an empty errors() but is not one *)
+Example C14_full_ex :
+  is_clean c14_valid_text = true /\ is_clean c14_q_text = true /\
+  match new_doc_res (str "proc main() { var x: int; x := 99999999999; }") with
+  | ODone d => doc_errors_res d = ROk [] /\ is_clean (d_text d) = false
+  | _ => False
+  end.
+Proof. vm_compute. repeat split; reflexivity. Qed.
